@@ -27,6 +27,10 @@ main (void)
 	int k ;
 
 	ND_FILL (nd_smp, 60, int) ;
+#ifdef K_FIXED
+	nd_k = K_FIXED ;	/* fill level on the grid (a symbolic fill level makes every packet byte a symbolic-offset update) */
+	nd_blk = BLK_FIXED ;
+#endif
 	VASSUME (nd_k >= 1 && nd_k <= 59) ;
 	VASSUME (nd_blk >= 0 && nd_blk <= 2) ;
 	psf->file.filedes = 0 ;
